@@ -8,6 +8,9 @@ HERE = os.path.dirname(os.path.dirname(os.path.abspath(__file__)))
 
 # id -> (technique, level text, level note, design ref)
 CLAIMS = {
+ "C01": ("def-use shape of every success return of the comparison route function (all tables / the key's table / makeList(first, idx+1) / makeList(idx, last+1)) + edge dominance (downward adjustment only on the op==LT edge and only under EqualStart) + tautology detection across siblings (no RangeShard.EqualStart may be `FindForKey(key) == index`) + constant table of inverseOperator, over SSA",
+         "Decides only the shape of the pruning for a single comparison on the sharding column: which tables may be dropped and under which test. NOT decided: which interval a key value belongs to (range edges, calendar arithmetic, time zones), AND/OR/NOT composition of conditions, IN / BETWEEN lists, joins, ON conditions, and whether the non-tautological EqualStart test is itself exact.",
+         "", "§9 C01"),
  "C03": ("must-pass-through over the SSA CFG of the VALUES loop (R-path) + dominance of rejection calls",
          "Structural necessary condition only: no row of an INSERT ... VALUES list can take a path through the routing loop that neither places the row in a rewritten statement nor fails the statement; the shard-column rejections dominate SQL generation. Not a proof that the routed index equals the lookup index.",
          "SSA/CFG of proxy/plan is a faithful model of control flow; runtime panics are not modelled as exits.", "§4 C03"),
@@ -23,6 +26,9 @@ CLAIMS = {
  "C07": ("effect analysis: writers of routing configuration (SSA stores/map updates rooted at protected types) must be unreachable in the VTA call graph from the session roots",
          "Decides 'planning never writes routing configuration shared between sessions' for every call path the VTA call graph admits; plan equality follows from absence of shared mutable state and is not separately checked.",
          "VTA call graph over-approximates dynamic calls (no reflection/unsafe dispatch in the analysed packages); writes through unsafe or reflection are not seen.", "§4 C07"),
+ "C08": ("unit (dimension) analysis by def-use over SSA: the sequence whose elements enter Mycat's string hash / murmur hash is traced through every call site to utf16.Encode (Java chars), a []rune conversion or raw bytes; lengths feeding the relative hash-slice bounds must be lengths of the very sequence that is indexed",
+         "Decides only the unit in which the key's characters are counted and indexed (UTF-16 code units as in Java, consistently between bound computation and indexing). NOT decided: the hash arithmetic itself, the partition tables (counts/lengths summing to 1024), PartitionByMod/Long on numeric keys, murmur seeds and bucket maps — all values.",
+         "Java's String.length()/charAt() semantics (UTF-16 code units) are taken from the Java language specification.", "§9 C08"),
  "C09": ("path-sensitive linear bounds prover over SSA for slice expressions on untrusted key strings",
          "Decides only 'a malformed calendar key cannot cause an out-of-range slice panic' in the three date-shard key parsers; interval arithmetic and placement are not covered.",
          "time.Format(\"2006-01-02\") yields at least 10 bytes (axiom).", "§4 C09"),
@@ -105,9 +111,7 @@ CLAIMS = {
 }
 
 NA = {
- "C01": "Pruned index sets versus placement of every key relative to range/calendar boundaries is arithmetic over values; no structural clause that is both necessary and not a frozen fragment.",
  "C02": "Result-multiset equivalence over data and queries; no structural necessary condition beyond what the type system enforces.",
- "C08": "Numerical equality with a Java reference implementation (UTF-16 code units, 32-bit wraparound).",
  "C36": "Metamorphic equality of the fingerprint over statement variants is a property of string transformations.",
 }
 
